@@ -111,6 +111,10 @@ def erase (k : String) : Members → Members
 
 def keys (m : Members) : List String := m.map (·.1)
 
+def distinctKeys : List String → Bool
+  | [] => true
+  | k :: ks => !ks.contains k && distinctKeys ks
+
 /-- build an object from parsed members: a later duplicate key replaces the earlier value -/
 def mkMembers (kvs : Members) : Members := kvs.foldl (fun acc kv => upsert kv.1 kv.2 acc) []
 
